@@ -22,8 +22,38 @@ def genCfg : Cfg := ⟨Gen.Bindings.skipTomb, Gen.Bindings.wfOneshot, Gen.Bindin
 def flagsOf (n : Nat) : Bool × BFlags :=
   (n % 2 = 1, ⟨n / 2 % 2 = 1, n / 4 % 2 = 1, n / 8 % 2 = 1⟩)
 
+/-- the harness's template pens -/
+def tmplOf : Nat → Option Tmpl
+  | 0 => some ⟨some true, none, none⟩
+  | 1 => some ⟨some false, none, none⟩
+  | 2 => some ⟨none, some 3, some 0x102030⟩
+  | 3 => some ⟨some true, some 2, none⟩
+  | 4 => some ⟨none, some 3, none⟩
+  | _ => none
+
+def digit? (c : Char) : Option Nat := if '0' ≤ c ∧ c ≤ '9' then some (c.toNat - '0'.toNat) else none
+
+/-- pen operation codes (see `harness/bindings.c`) -/
+def parsePenOp (s : String) : Option PenOp :=
+  match s.toList with
+  | ['b', v] => (digit? v).map fun d => .setBool (d != 0)
+  | 'c' :: rest => (String.ofList rest).toInt?.map .setCol
+  | ['k', t, ow] => do
+    let t ← digit? t
+    let tm ← tmplOf t
+    let o ← digit? ow
+    some (.copy tm (o == 1))
+  | ['a', t] => do
+    let t ← digit? t
+    let tm ← tmplOf t
+    some (.copyAttr tm)
+  | 'd' :: rest => (String.ofList rest).toInt?.map fun n => .desc n none
+  | 'D' :: rest => (String.ofList rest).toInt?.map fun n => .desc n (some 0x112233)
+  | _ => none
+
 def parseAction (s : String) : Option Action :=
   match s.splitOn ":" with
+  | ["p", code] => (parsePenOp code).map .pen
   | ["us"] => some .unbindSelf
   | ["d"] => some .destroy
   | ["u", k] => k.toNat?.map .unbind
@@ -70,7 +100,20 @@ structure ABind where
   ev : Int
   flags : BFlags
   h : Nat
+  /-- bound with `TICKIT_BIND_FIRST` -/
+  first : Bool := false
   deriving Repr
+
+/-- the statements of a pen operation as the specification steps through them -/
+inductive SStep
+  | s (p : PenStep)
+  | freeze
+  | thaw
+  deriving Repr
+
+def regionOf (body : List PenStep) : List SStep := [.freeze] ++ body.map .s ++ [.thaw]
+
+def progOf (op : PenOp) : List SStep := if op.isRegion then regionOf op.body else op.body.map .s
 
 inductive Frame
   /-- an occurrence being delivered: bindings of the snapshot not yet reached, those already run here -/
@@ -82,6 +125,8 @@ inductive Frame
   /-- a bind waiting for its identifier -/
   | bindw (ev : Int) (first : Bool) (flags : BFlags) (h : Nat)
   | nop
+  /-- a pen operation in progress: the statements still to run (occurrences it delivers sit on top of it) -/
+  | prog (steps : List SStep)
   /-- a running handler -/
   | inv (slot h n fl : Nat) (acts : List Action) (next : Nat) (ret : Int)
   deriving Repr
@@ -101,6 +146,8 @@ structure S where
   dropped : Bool := false
   /-- the owner has been destroyed: handlers take no further action on it -/
   gone : Bool := false
+  /-- the pen's attributes, freeze count and pending-change flag, as the specification tracks them -/
+  pen : PenSt := {}
   deriving Repr
 
 def S.invOf (s : S) (h : Nat) : Nat := (s.inv.lookup h).getD 0
@@ -147,9 +194,41 @@ def beginUnbindSlot (s : S) (slot : Nat) : S :=
   | none => { s with stack := .nop :: s.stack }
   | some (id, _) => beginUnbindId s id
 
+/-- Run the statements of the pen operation on top of the stack up to (and including) the next one that emits the
+    change event: then an occurrence frame is pushed.  A change inside a frozen region is only remembered; the region's
+    `thaw` delivers one batched occurrence iff something was remembered. -/
+def advance : Nat → S → S
+  | 0, s => s
+  | fuel + 1, s =>
+    match s.stack with
+    | .prog (step :: rest) :: below =>
+      let p := s.pen
+      let emit (p' : PenSt) (rest' : List SStep) : S :=
+        { s with pen := p', stack := .occ 1 false ((s.live.filter (·.ev == 1)).map (·.slot)) [] false :: .prog rest' :: below }
+      let go (p' : PenSt) (rest' : List SStep) : S := advance fuel { s with pen := p', stack := .prog rest' :: below }
+      let changed (p' : PenSt) : S := if p'.freeze = 0 then emit p' rest else go { p' with changed := true } rest
+      match step with
+      | .s (.setBool v) => changed { p with bold := some v }
+      | .s (.setCol n) => emit { p with fg := some n, rgb := none } rest
+      | .s (.setRgb r) => if p.fg.isSome then changed { p with rgb := some r } else go p rest
+      | .freeze => go { p with freeze := p.freeze + 1 } rest
+      | .thaw =>
+        if p.freeze = 0 then go p rest
+        else if p.freeze = 1 && p.changed then emit { p with freeze := 0, changed := false } rest
+        else go { p with freeze := p.freeze - 1 } rest
+      | .s (.copyAttrFg t) => go p (regionOf (attrFgBody t) ++ rest)
+      | .s (.loopFg t ow) => if loopCopiesFg p t ow then go p (regionOf (attrFgBody t) ++ rest) else go p rest
+      | .s (.loopBold t ow) => if loopCopiesBold p t ow then changed { p with bold := some (t.bold.getD false) } else go p rest
+    | _ => s
+
+def beginPen (s : S) (steps : List SStep) : S :=
+  advance 64 { s with stack := .prog steps :: s.stack }
+
 def beginEmit (own : Owner) (s : S) (ev : Int) : S :=
   if own.canEmit ev then
-    { s with stack := .occ ev (own.wf ev) ((s.live.filter (·.ev == ev)).map (·.slot)) [] false :: s.stack }
+    match own.penEmitFg with
+    | some n => beginPen s [.s (.setCol n)]
+    | none => { s with stack := .occ ev (own.wf ev) ((s.live.filter (·.ev == ev)).map (·.slot)) [] false :: s.stack }
   else { s with stack := .nop :: s.stack }
 
 def asked (b : ABind) : Bool := b.ev == 0 || b.flags.unbind || b.flags.destroy
@@ -164,7 +243,7 @@ def Frame.isOcc : Frame → Bool
   | _ => false
 
 /-- Close the context frame on top of the stack; error text or the new state. -/
-def closeCtx (s : S) : Except String S :=
+def closeCtx1 (s : S) : Except String S :=
   match s.stack with
   | .occ _ _ pending _ claimed :: rest =>
     match (if claimed then none else pending.find? s.isLive) with
@@ -183,7 +262,29 @@ def closeCtx (s : S) : Except String S :=
   | .bindw .. :: _ => .error "bind returned no identifier"
   | .nop :: rest => .ok { s with stack := rest }
   | .inv .. :: _ => .error "malformed log: handler still running at the end of its context"
+  | .prog _ :: _ => .error "malformed log: pen operation"
   | [] => .error "malformed log: no open context"
+
+/-- Close the context on top of the stack; a pen operation is closed by running it to its end, every occurrence it
+    still delivers having to find no live binding. -/
+def closeCtxN : Nat → S → Except String S
+  | 0, _ => .error "malformed log: pen operation does not end"
+  | fuel + 1, s =>
+    match s.stack with
+    | .occ .. :: .prog _ :: _ =>
+      match closeCtx1 s with
+      | .error e => .error e
+      | .ok s1 => closeCtxN fuel (advance 64 s1)
+    | .prog [] :: rest => .ok { s with stack := rest }
+    | .prog _ :: rest => if s.gone then .ok { s with stack := rest } else closeCtxN fuel (advance 64 s)
+    | .des _ :: .prog _ :: _ =>
+      -- the owner was destroyed at the end of the operation's last occurrence: nothing of the operation is left to run
+      match closeCtx1 s with
+      | .error e => .error e
+      | .ok s1 => closeCtxN fuel s1
+    | _ => closeCtx1 s
+
+def closeCtx (s : S) : Except String S := closeCtxN 32 s
 
 def stepTok (own : Owner) (beh : Behaviour) (s : S) (t : Tok) : Except String S :=
   match t with
@@ -209,6 +310,29 @@ def stepTok (own : Owner) (beh : Behaviour) (s : S) (t : Tok) : Except String S 
               | none => .ok { s with stack := .des (owedAtDestroy s) :: rest, pendingDestroy := false }
             else .ok s
           | _ => .ok s
+        -- a pen operation may deliver several occurrences one after the other: a binding that already ran in the current
+        -- one starts the next one, if one is due
+        let sOrErr : Except String S :=
+          match sOrErr with
+          | .error e => .error e
+          | .ok s =>
+            match s.stack with
+            | .occ _ _ pending ran _ :: .prog _ :: _ =>
+              -- …and so does a binding put at the head of the chain during the current one (the walker is past it)
+              let aheadOfWalker := match s.findLive slot with
+                | some ab => ab.first && !pending.contains slot
+                | none => false
+              if !destroying && (ran.contains slot || aheadOfWalker) then
+                match closeCtx1 s with
+                | .error e => .error e
+                | .ok s1 =>
+                  let s2 := advance 64 s1
+                  match s2.stack with
+                  | .occ .. :: _ => .ok s2
+                  | _ => .error s!"fire_order: slot {slot} ran again in one occurrence of the change event (no further occurrence is due)"
+              else .ok s
+            | .prog _ :: _ => .error s!"fire_order: slot {slot} ran although no occurrence of the change event is due (nothing changed)"
+            | _ => .ok s
         match sOrErr with
         | .error e => .error e
         | .ok s =>
@@ -228,6 +352,9 @@ def stepTok (own : Owner) (beh : Behaviour) (s : S) (t : Tok) : Except String S 
                 match (if inSnap then before.find? s.isLive else none) with
                 | some k => .error s!"fire_order: slot {slot} ran before the live binding of slot {k} that precedes it"
                 | none =>
+                  if !inSnap && ab.first then
+                    .error s!"fire_order: slot {slot}, bound FIRST during this occurrence, ran in it: the walker was already past the head of the chain"
+                  else
                   let pending' := if inSnap then (pending.dropWhile (· != slot)).drop 1 else pending
                   if ab.flags.oneshot then
                     if fl ≠ 3 then .error s!"oneshot_at_most_once: one-shot binding of slot {slot} ran with flags {fl}, not FIRE|UNBIND, and stays bound"
@@ -272,6 +399,7 @@ def stepTok (own : Owner) (beh : Behaviour) (s : S) (t : Tok) : Except String S 
           | .unbind k => .ok (beginUnbindSlot s k)
           | .unbindSelf => .ok (beginUnbindSlot s slot)
           | .emit ev => .ok (beginEmit own s ev)
+          | .pen op => .ok (beginPen s (progOf op))
           | .destroy =>
             -- inside an emission of an owner whose emitters hold a reference the destruction waits for the end of
             -- the outermost emission; otherwise it happens here and now
@@ -287,7 +415,7 @@ def stepTok (own : Owner) (beh : Behaviour) (s : S) (t : Tok) : Except String S 
       if id ≤ 0 then .error s!"live_ids_unique: bind returned the identifier {id}"
       else if s.live.any (·.id == id) then .error s!"live_ids_unique: bind returned {id}, which a live binding already has"
       else
-        let ab : ABind := ⟨s.slots.length, id, ev, flags, h⟩
+        let ab : ABind := ⟨s.slots.length, id, ev, flags, h, first⟩
         .ok { s with live := if first then ab :: s.live else s.live ++ [ab],
                      slots := s.slots ++ [(id, h)], stack := .nop :: rest }
     | _ => .error "malformed log: identifier without a bind"
@@ -303,9 +431,9 @@ def checkOp (own : Owner) (beh : Behaviour) (s : S) (begin : S → S) (toks : Li
   match runToks own beh (begin { s with stack := [] }) (toks.map parseTok) with
   | .error e => .error e
   | .ok s' =>
-    match s'.stack with
-    | [_] => closeCtx s'
-    | _ => .error "malformed log: unbalanced"
+    match closeCtx s' with
+    | .error e => .error e
+    | .ok s'' => if s''.stack.isEmpty then .ok s'' else .error "malformed log: unbalanced"
 
 end Spec
 
@@ -340,6 +468,7 @@ def parseOp (ts : List String) : Option Op :=
   | ["unbind", k] => k.toNat?.map .unbind
   | ["unbindid", id] => id.toInt?.map .unbindId
   | ["emit", ev] => ev.toInt?.map .emit
+  | ["pen", code] => (parsePenOp code).map .pen
   | ["destroy"] => some .destroy
   | _ => none
 
@@ -349,6 +478,7 @@ def specBegin (own : Owner) (op : Op) (s : Spec.S) : Spec.S :=
   | .unbind k => Spec.beginUnbindSlot s k
   | .unbindId id => Spec.beginUnbindId s id
   | .emit ev => Spec.beginEmit own s ev
+  | .pen op => Spec.beginPen s (Spec.progOf op)
   | .destroy => Spec.beginDestroy s
 
 def step (d : DSt) (ts : List String) (impl : String) : DSt × String × String :=
